@@ -279,8 +279,14 @@ func mergeCryptoDynMap(ab *cmdsPair, name, prefix string) {
 
 func mergeCryptoCommon(ab *cmdsPair, al, bl []*cmd) []*cmd {
 	key := func(c *cmd) [2]string {
+		// IOS command has only 5 words:
+		// crypto map $NAME $SEQ ipsec-isakmp
+		var result [2]string
 		tokens := strings.Split(c.parsed, " ")
-		return [2]string(tokens[4:6])
+		if len(tokens) > 4 {
+			copy(result[:], tokens[4:])
+		}
+		return result
 	}
 	var add []*cmd
 	m := make(map[[2]string]*cmd)
